@@ -543,8 +543,59 @@ func c04Eligible(p *chk.Prog, r *chk.Report) {
 			}
 			key := s.Node.(*ast.AssignStmt).Lhs[0].(*ast.IndexExpr).Index
 			same := func(e ast.Expr) bool { return f.SameExpr(e, key) }
-			x.Check("speakersForPool:network-available", s.Pos(), g.Dominated(s, g.GPat(false, "k8snodes.IsNetworkUnavailable(N[S])", chk.H("N", nodes), chk.H("S", same))), "", "a network-unavailable node can become a candidate")
-			x.Check("speakersForPool:not-excluded", s.Pos(), g.Dominated(s, g.GPat(false, "!IGN && k8snodes.IsNodeExcludedFromBalancers(N[S])", chk.H("IGN", recvFieldOrPassed(p, f, "layer2Controller", "ignoreExcludeLB")), chk.H("N", nodes), chk.H("S", same))), "", "a node excluded from external load balancers can become a candidate although exclusion is not ignored")
+			// a test made when the name was put on an intermediate list holds for the element taken from that list: the
+			// candidates filtered in passes (health first, pool second) - every append to the list stands behind the test
+			viaList := func(mk func(same func(ast.Expr) bool) chk.Guard) bool {
+				lrs, _ := f.LoopOf(s.Node).(*ast.RangeStmt)
+				if lrs == nil || !rangeVal(f, lrs)(key) {
+					return false
+				}
+				lo := f.ObjOf(lrs.X)
+				if lo == nil {
+					return false
+				}
+				if _, isSlice := f.Info().TypeOf(lrs.X).Underlying().(*types.Slice); !isSlice {
+					return false
+				}
+				nApp := 0
+				for _, d := range assignsTo(f, lo) {
+					as, isAs := d.(*ast.AssignStmt)
+					if !isAs {
+						continue // `var list []string`
+					}
+					if len(as.Rhs) != 1 {
+						return false
+					}
+					if f.IsNilLit(as.Rhs[0]) {
+						continue
+					}
+					b := f.MatchWith("append(L, V)", as.Rhs[0], chk.H("L", f.IsObj(lo)))
+					if b == nil {
+						if cl, isLit := ast.Unparen(as.Rhs[0]).(*ast.CompositeLit); isLit && len(cl.Elts) == 0 {
+							continue
+						}
+						if isEmptyMake(f, as.Rhs[0]) {
+							continue
+						}
+						return false
+					}
+					v := b["V"]
+					sites := g.Find(func(n ast.Node) bool { return n == ast.Node(as) })
+					if len(sites) != 1 || !g.Dominated(sites[0], mk(func(e ast.Expr) bool { return f.SameExpr(e, v) })) {
+						return false
+					}
+					nApp++
+				}
+				return nApp >= 1
+			}
+			netOK := func(sm func(ast.Expr) bool) chk.Guard {
+				return g.GPat(false, "k8snodes.IsNetworkUnavailable(N[S])", chk.H("N", nodes), chk.H("S", sm))
+			}
+			exclOK := func(sm func(ast.Expr) bool) chk.Guard {
+				return g.GPat(false, "!IGN && k8snodes.IsNodeExcludedFromBalancers(N[S])", chk.H("IGN", recvFieldOrPassed(p, f, "layer2Controller", "ignoreExcludeLB")), chk.H("N", nodes), chk.H("S", sm))
+			}
+			x.Check("speakersForPool:network-available", s.Pos(), g.Dominated(s, netOK(same)) || viaList(netOK), "", "a network-unavailable node can become a candidate")
+			x.Check("speakersForPool:not-excluded", s.Pos(), g.Dominated(s, exclOK(same)) || viaList(exclOK), "", "a node excluded from external load balancers can become a candidate although exclusion is not ignored")
 			selects := g.Dominated(s, g.GPat(true, "poolMatchesNodeL2(P, S)", chk.H("P", pool), chk.H("S", same)))
 			if !selects && !poolSel.IsNone() {
 				for m := range c04PoolSets {
@@ -1284,7 +1335,17 @@ func keySources(f *chk.Fn, g *chk.Graph, v types.Object, depth int) ([]keySource
 					return nil, false
 				}
 				if _, isMap := f.Info().TypeOf(rs.X).Underlying().(*types.Map); !isMap {
-					return nil, false
+					// the keys of a map handed over as an iterator (maps.Keys(M)) held in a local: its sources
+					xid, isX := ast.Unparen(rs.X).(*ast.Ident)
+					if !isX {
+						return nil, false
+					}
+					sub, okS := keySources(f, g, f.ObjOf(xid), depth+1)
+					if !okS || len(sub) == 0 {
+						return nil, false
+					}
+					out = append(out, sub...)
+					continue
 				}
 				out = append(out, keySource{rs.X, sites[0]})
 			default:
